@@ -7,6 +7,9 @@
 (*            Ev.na, Ev.nb, Ev.nw = shape of the real table afterwards        *)
 (*   traffic  stream item Ev.item went through the real input handler         *)
 (*   pump     well-formed metrics went through Table.Dispatch                 *)
+(*   rulepump well-formed metrics that the rewriters / aggregations of the    *)
+(*            history match went through Table.Dispatch and what the rules    *)
+(*            made of them was handed to the (connected) destinations         *)
 (*   done     the history completed and the process is alive                  *)
 (*   hang     a step did not return (C14 says nothing about it; noted)        *)
 (* There is NO action for the event "crash": panic / exit is not in the range *)
@@ -56,13 +59,14 @@ TApply ==
 
 TTraffic == Is("traffic") /\ IsItem(Ev.item) /\ UNCHANGED table
 TPump    == Is("pump") /\ UNCHANGED table
+TRulePump == Is("rulepump") /\ UNCHANGED table
 TDone    == Is("done") /\ UNCHANGED table
 THang    == Is("hang") /\ UNCHANGED table
 
 TCrash   == /\ CrashMode /\ Is("crash") /\ UNCHANGED table
             /\ PrintT("@@CRASH " \o ToJson([line |-> l, h |-> Ev.h, why |-> Unsafe(table)]))
 
-TNext == THist \/ TApply \/ TTraffic \/ TPump \/ TDone \/ THang \/ TCrash
+TNext == THist \/ TApply \/ TTraffic \/ TPump \/ TRulePump \/ TDone \/ THang \/ TCrash
 TSpec == TInit /\ [][TNext]_tvars
 
 HighWater == TLCSet(1, IF l - 1 > TLCGet(1) THEN l - 1 ELSE TLCGet(1))
